@@ -52,7 +52,7 @@ TrLearn ==
 
 \* the negated clause as a set of theory literals (terms); satisfiable => the clause is not valid
 TheoryViol(kind) ==
-  If(Ev.mon /\ SatStatus(tt, SetOf(Ev.neg), <<>>, Ev.h, dom) = "sat",
+  If(Ev.mon /\ CandWitness(tt, SetOf(Ev.neg), <<>>, Ev.h),
      V("C11", [kind |-> kind, clause |-> Ev.lits]))
 TrTheory ==
   /\ Ev.e = "tcl" /\ Step /\ AddTheory(SetOf(Ev.lits))
@@ -92,7 +92,7 @@ TrFrameEnd ==
           ELSE { V("C13", [frame |-> Ev.idx, assertion |-> Ev.q[i].a]) :
                    i \in { j \in DOMAIN Ev.q :
                              /\ Ev.q[j].a \in fr[Ev.idx].asserted
-                             /\ SatStatus(tt, Given(Ev.idx) \cup {Ev.q[j].na}, <<>>, Ev.q[j].h, dom) = "sat" } })
+                             /\ CandWitness(tt, Given(Ev.idx) \cup {Ev.q[j].na}, <<>>, Ev.q[j].h) } })
 
 TrOther ==
   /\ Ev.e \in {"check", "Exit"} /\ Step /\ UNCHANGED <<db, tt, dom, run, fr, gv>> /\ Note({})
